@@ -40,6 +40,11 @@ func corpus() [][]string {
 		{"tp store wrapped", "tp init none", "tp compute new 5 -", "tp get -", "tp del -", "tp compute new 6 -", "tp reopen", "tp get -"},
 		{"ts store fmt", "ts get 1 -", "ts has 1 -", "ts set 1 10 -", "ts get 1 -", "ts del 1 -", "ts get 1 -", "ts get 1 kv1", "ts iter - fwd 0 kv1"},
 		{"ts set 65535 1 -", "ts set 1 18446744073709551615 -", "ts get 65535 -", "ts has 65535 -", "ts del 65535 -", "ts get 1 -", "ts del 1 -"},
+		// bulk deletions that fail part-way: the first n entries under the prefix are gone, the error is reported, nothing
+		// outside the prefix is touched
+		{"ts set 1 10 -", "ts set 2 20 -", "ts set 3 30 -", "ts set 258 40 -", "ts delp 00 kv@1", "ts iter - fwd 0 -", "ts delp 00 kv@2", "ts delp 00 kv@0", "ts iter - fwd 0 -",
+			"ts clear kv@1", "ts iter - fwd 0 -", "ts clear kv@5", "ts iter - fwd 0 -"},
+		{"ts keys var", "ts set 1 10 -", "ts set 256 20 -", "ts set 257 30 -", "ts set 2 40 -", "ts delp 01 kv@2", "ts iterk - fwd 0 -", "ts get 1 -", "ts get 257 -", "ts clear kv@0", "ts clear kv@1", "ts iter - bwd 0 -"},
 		// a store whose failing write took effect all the same: the error is reported, the cache is untouched (and is then
 		// behind the store until the next successful write or a fresh object)
 		{"tv faults dirty", "tv init none", "tv set 5 -", "tv set 7 kv1", "tv get -", "tv has -", "tv compute add 1 -", "tv get -", "tv reopen", "tv get -"},
@@ -174,7 +179,7 @@ func exhaustiveTS() [][]string {
 			}
 		}
 		for _, op := range []string{"delp -", "delp 00", "delp 0001", "delp 01", "clear"} {
-			for _, ft := range []string{"-", "kv1"} {
+			for _, ft := range []string{"-", "kv1", "kv@0", "kv@1", "kv@2", "kv@3", "kv@1,kv1"} {
 				for _, flavour := range []string{"alloc", "scratch"} {
 					c := []string{"ts codec " + flavour}
 					c = append(c, st...)
@@ -334,9 +339,10 @@ func genTS(rng *hx.Rng) []string {
 	for i := 0; i < n; i++ {
 		switch x := rng.Intn(110); {
 		case x >= 107:
-			ops = append(ops, "ts clear "+hx.Pick(rng, []string{"-", "-", "kv1"}))
+			ops = append(ops, "ts clear "+hx.Pick(rng, []string{"-", "-", "kv1", fmt.Sprintf("kv@%d", rng.Intn(4)), fmt.Sprintf("kv@%d", rng.Intn(4))}))
 		case x >= 104:
-			ops = append(ops, fmt.Sprintf("ts delp %s %s", hx.Pick(rng, []string{"00", "01", "0001", "02", "-"}), hx.Pick(rng, []string{"-", "-", "kv1"})))
+			ops = append(ops, fmt.Sprintf("ts delp %s %s", hx.Pick(rng, []string{"00", "01", "0001", "02", "-"}),
+				hx.Pick(rng, []string{"-", "-", "kv1", fmt.Sprintf("kv@%d", rng.Intn(4)), fmt.Sprintf("kv@%d", rng.Intn(4))})))
 		case x >= 100:
 			ops = append(ops, fmt.Sprintf("ts iterk %s %s %d %s", hx.Pick(rng, []string{"-", "-", "00", "01", "0001", "02"}),
 				hx.Pick(rng, []string{"fwd", "bwd"}), rng.Intn(5), genTSFaults(rng, true)))
